@@ -168,4 +168,56 @@ def rule_c(ctx):
     return r
 
 
-RULES = [rule_a, rule_b, rule_c]
+
+def rule_d(ctx):
+    r = RuleResult("C14-d", "nested-key map walks (map.merge / map.set / deep-* with $keys...) move their cursor on every branch: in each loop over the keys, the map that "
+                   "the next key is looked up in is reassigned on every path through the iteration (a missing or non-map entry continues in a fresh empty map)")
+    from . import loops as _loops
+    prog = ctx.prog()
+    n = 0
+    for b in prog.bodies.values():
+        if b.crate != "grass_compiler" or "builtin/" not in b.file or "map" not in b.file.rsplit("/", 1)[-1]:
+            continue
+        nl = _loops.natural_loops(b)
+        for h, blk in sorted(nl.items()):
+            hc = b.call_at(h)
+            if hc is None or an.tail2(hc.callee) != "Iterator::next":
+                continue
+            # cursor candidates: locals holding a (reference to a) SassMap that are the receiver of a lookup inside the loop
+            lookups = [c for c in b.calls() if c.bb in blk and (c.name() or "").rsplit("::", 1)[-1] in ("get", "get_ref", "get_mut") and "map::SassMap" in (c.name() or "")]
+            cursors = set()
+            for c in lookups:
+                ap = an.trace_operand(b, c.args[0], through_calls=False)
+                if ap.root[0] == "local" and not ap.proj and "SassMap" in b.local_ty(ap.root[1]):
+                    cursors.add(ap.root[1])
+                elif c.args[0].place is not None:
+                    for bb, i, d in b.defs_of(c.args[0].place.local):
+                        if isinstance(d, dict) and d["k"] == "ref" and not [e for e in d["p"].get("p", []) if e["k"] != "deref"] and "SassMap" in b.local_ty(d["p"]["l"]):
+                            cursors.add(d["p"]["l"])
+                        if isinstance(d, dict) and d["k"] == "use" and "p" in d["op"] and not d["op"]["p"].get("p") and "SassMap" in b.local_ty(d["op"]["p"]["l"]):
+                            cursors.add(d["op"]["p"]["l"])
+            entry = None
+            for sw, ap, adt, variants, rv in common.discr_switches(b):
+                if ap.root[0] == "call" and ap.root[2] == h and not ap.proj:
+                    for v, tb in b.term(sw)["ts"]:
+                        if variants.get(v) == "Some":
+                            entry = tb
+            if entry is None:
+                continue
+            for L in sorted(cursors):
+                assigns = {bb for bb, i, d in b.defs_of(L) if bb in blk}
+                if not assigns:
+                    continue  # not loop-carried
+                n += 1
+                key = "%s|cursor-advances-on-every-branch" % b.path
+                skipped = entry not in assigns and an.reach_avoiding(b, entry, assigns, {h}) is not None
+                if skipped:
+                    r.violate(key, "%s: in the loop over the nested keys the current map is not reassigned on some path through an iteration, so after a missing or non-map "
+                              "key the next key is looked up in the previous level's map instead of a fresh empty one" % b.path, hc.loc())
+                else:
+                    r.ok(key, assigns=len(assigns))
+    r.floor("nested-key walk cursors", n, 1)
+    return r
+
+
+RULES = [rule_a, rule_b, rule_c, rule_d]
